@@ -52,7 +52,9 @@ func TestVerifC14Banner(t *testing.T) {
 	targets := []string{"http://verif.example/page?x=1&y=<z>", "http://verif.example/page?x=1&y=<z>", "http://verif.example:8080/page?x=1&y=<z>", "http://verif.example:8080/page"}
 	statuses := []int{200, 200, 200, 201, 204, 301, 304, 404, 500}
 	ctypes := []string{"", "text/html", "text/html; charset=utf-8", "application/xhtml+xml", "application/json", "text/plain", "TEXT/HTML", "image/png", "text/htmlish"}
-	cdisps := []string{"", "", "inline", "attachment; filename=x.html", "ATTACHMENT", "form-data; name=attachment"}
+	cdisps := []string{"", "", "inline", "attachment; filename=x.html", "ATTACHMENT", "form-data; name=attachment",
+		// attachment dispositions whose parameters a strict parser rejects
+		"attachment; filename=My Report.html", "attachment; filename=report (1).html", "attachment;filename=", "attachment; filename=\"a.html\"; filename=\"b.html\"", "attachment; filename=r\xc3\xa9sum\xc3\xa9.html", "attachment;", "inline; filename=attachment.html"}
 	bodies := []string{"", "x", "<html><head><title>t</title></head><body>hello</body></html>", strings.Repeat("A", 5000), "{\"a\":1}"}
 	n := 1500
 	if verifThorough() {
